@@ -38,6 +38,8 @@ pub enum KindSpec {
     Fd { r: bool, w: bool, mode: u8 },
     /// synchronous channel with the given bound; the harness only uses try_send
     SyncChan(u8),
+    /// StreamSource over a harness stream (items pushed and the end signalled by operations)
+    Stream,
     /// futures executor; causes are ready futures scheduled on it
     Exec,
     /// `Async` adapter over one end of a socketpair (no tasks: registration only)
@@ -52,6 +54,7 @@ impl KindSpec {
             KindSpec::Ping => "Ping",
             KindSpec::Chan => "Chan",
             KindSpec::SyncChan(_) => "SyncChan",
+            KindSpec::Stream => "Stream",
             KindSpec::Timer(_) => "Timer",
             KindSpec::Fd { mode: 0, .. } => "FdLevel",
             KindSpec::Fd { mode: 1, .. } => "FdEdge",
@@ -164,6 +167,8 @@ pub struct Cfg {
     /// removed Dispatcher-held fd sources are released by an explicit operation, not at once
     pub defer_release: bool,
     pub exec_pending: bool,
+    /// gated tasks scheduled on every executor of the initial population
+    pub exec_initial_pending: u8,
     /// every violation found by this driver also counts against this property (C08: "has the
     /// effect it would have outside a dispatch" is judged by all the other monitors)
     pub tag_all: Option<&'static str>,
@@ -218,6 +223,7 @@ impl Cfg {
             top_dup: false,
             defer_release: false,
             exec_pending: false,
+            exec_initial_pending: 0,
             tag_all: None,
             end_order_choice: false,
             update_disabled: false,
@@ -299,6 +305,7 @@ pub struct Rt {
     pub pings: Vec<Ping>,
     pub senders: Vec<Sender<u8>>,
     pub sync_senders: Vec<calloop::channel::SyncSender<u8>>,
+    pub stream: Option<Rc<StreamSh>>,
     pub efd: Option<Rc<OwnedFd>>,
     pub timer: Option<Dispatcher<'static, Tracked<Timer>, Ctx>>,
     pub fdd: Option<Dispatcher<'static, Tracked<Generic<FdRef>>, Ctx>>,
@@ -470,6 +477,7 @@ impl Ctx {
             pings: vec![],
             senders: vec![],
             sync_senders: vec![],
+            stream: None,
             efd: None,
             timer: None,
             fdd: None,
@@ -506,6 +514,23 @@ impl Ctx {
                         match ev {
                             channel::Event::Msg(v) => ctx.on_cb(id, Payload::Msg(v)),
                             channel::Event::Closed => ctx.on_cb(id, Payload::Closed),
+                        };
+                    })
+                    .map_err(|e| format!("{e:?}"))
+            }
+            KindSpec::Stream => {
+                let sh = Rc::new(StreamSh::default());
+                rt.stream = Some(sh.clone());
+                ma.senders = 1;
+                // StreamSource::new pings itself so that the stream is polled once
+                ma.sig_at = Some(0);
+                let src = calloop::stream::StreamSource::new(HStream(sh)).expect("stream source");
+                self.h
+                    .insert_source(Tracked::new(src, track.clone()), move |ev: Option<u8>, _, ctx: &mut Ctx| {
+                        let _g = &guard;
+                        match ev {
+                            Some(v) => ctx.on_cb(id, Payload::Msg(v)),
+                            None => ctx.on_cb(id, Payload::Closed),
                         };
                     })
                     .map_err(|e| format!("{e:?}"))
@@ -772,6 +797,11 @@ impl Ctx {
                         v.push(Op::Cause(i))
                     }
                 }
+                KindSpec::Stream => {
+                    if a.senders > 0 && a.q.len() < 3 {
+                        v.push(Op::Cause(i))
+                    }
+                }
                 KindSpec::Fd { .. } => {
                     if a.fdc == 0 {
                         v.push(Op::Cause(i))
@@ -804,7 +834,7 @@ impl Ctx {
                         v.push(Op::Cause2(i))
                     }
                 }
-                KindSpec::Chan | KindSpec::SyncChan(_) => {
+                KindSpec::Chan | KindSpec::SyncChan(_) | KindSpec::Stream => {
                     if a.senders > 0 {
                         v.push(Op::Cause2(i))
                     }
@@ -1505,6 +1535,18 @@ impl Ctx {
                                 format!("send on channel {j} failed while the channel is in the loop"));
                         }
                     }
+                    KindSpec::Stream => {
+                        let v = self.m[j].next_msg;
+                        self.m[j].next_msg = v.wrapping_add(1);
+                        let sh = self.rt[j].stream.clone().unwrap();
+                        sh.q.borrow_mut().push_back(v);
+                        self.m[j].q.push_back(v);
+                        let w = sh.waker.borrow_mut().take();
+                        if let Some(w) = w {
+                            self.m[j].sig_at = Some(self.rt[j].track.pe_reg_seq.get());
+                            w.wake();
+                        }
+                    }
                     KindSpec::SyncChan(_) => {
                         let v = self.m[j].next_msg;
                         self.m[j].next_msg = v.wrapping_add(1);
@@ -1569,6 +1611,16 @@ impl Ctx {
                         self.rt[j].sync_senders.pop();
                         self.m[j].senders -= 1;
                         self.m[j].sig_at = Some(self.rt[j].track.pe_reg_seq.get());
+                    }
+                    KindSpec::Stream => {
+                        let sh = self.rt[j].stream.clone().unwrap();
+                        sh.ended.set(true);
+                        self.m[j].senders = 0;
+                        let w = sh.waker.borrow_mut().take();
+                        if let Some(w) = w {
+                            self.m[j].sig_at = Some(self.rt[j].track.pe_reg_seq.get());
+                            w.wake();
+                        }
                     }
                     KindSpec::Fd { w, .. } => {
                         let efd = self.rt[j].efd.clone().unwrap();
@@ -1849,7 +1901,7 @@ impl Ctx {
             let tr = &self.rt[i].track;
             match a.spec {
                 KindSpec::Ping => a.ping || a.close_at.is_some(),
-                KindSpec::Chan | KindSpec::SyncChan(_) | KindSpec::Exec | KindSpec::ExecIo => a.sig_at.map(|at| tr.pe_reg_seq.get() <= at).unwrap_or(false),
+                KindSpec::Chan | KindSpec::SyncChan(_) | KindSpec::Stream | KindSpec::Exec | KindSpec::ExecIo => a.sig_at.map(|at| tr.pe_reg_seq.get() <= at).unwrap_or(false),
                 KindSpec::Timer(_) | KindSpec::Async => false,
                 KindSpec::Fd { r, w, mode } => {
                     let ready = (r && a.fdc > 0) || (w && a.fdc < 2);
@@ -1885,7 +1937,7 @@ impl Ctx {
             }
             a.owed = match a.spec {
                 KindSpec::Ping => a.ping,
-                KindSpec::Chan | KindSpec::SyncChan(_) => !a.q.is_empty() || (a.senders == 0 && !a.closed_delivered),
+                KindSpec::Chan | KindSpec::SyncChan(_) | KindSpec::Stream => !a.q.is_empty() || (a.senders == 0 && !a.closed_delivered),
                 KindSpec::Exec => a.runq.iter().any(|t| a.tasks.iter().any(|x| x.0 == *t && x.2)),
                 KindSpec::Async | KindSpec::ExecIo => false,
                 KindSpec::Timer(_) => false, // decided after the wait (needs the poll time)
@@ -1988,6 +2040,7 @@ impl Ctx {
                     KindSpec::Timer(_) => vec!["C02", "C05"],
                     KindSpec::Ping => vec!["C02", "C03"],
                     KindSpec::Chan | KindSpec::SyncChan(_) => vec!["C02", "C04"],
+                    KindSpec::Stream => vec!["C02", "C10"],
                     KindSpec::Exec => vec!["C02", "C10"],
                     _ => vec!["C02"],
                 };
@@ -2125,7 +2178,7 @@ impl Ctx {
             }
             let key = calloop::verif::registration_key(self.rt[i].token.as_ref().unwrap()) as u64;
             match a.spec {
-                KindSpec::Ping | KindSpec::Chan | KindSpec::SyncChan(_) | KindSpec::Exec | KindSpec::ExecIo => {
+                KindSpec::Ping | KindSpec::Chan | KindSpec::SyncChan(_) | KindSpec::Stream | KindSpec::Exec | KindSpec::ExecIo => {
                     expected.push((key, self.masks.expected(Interest::READ, Mode::Level), None, i))
                 }
                 KindSpec::Async => {}
@@ -2252,6 +2305,31 @@ fn p_kind(desc: &str) -> Payload {
     }
 }
 
+/// A harness stream: items and the end are produced by operations; it parks the waker it is
+/// polled with whenever it has nothing to yield.
+#[derive(Default)]
+pub struct StreamSh {
+    pub q: RefCell<VecDeque<u8>>,
+    pub ended: std::cell::Cell<bool>,
+    pub waker: RefCell<Option<std::task::Waker>>,
+}
+
+pub struct HStream(pub Rc<StreamSh>);
+
+impl futures::Stream for HStream {
+    type Item = u8;
+    fn poll_next(self: std::pin::Pin<&mut Self>, cx: &mut std::task::Context<'_>) -> std::task::Poll<Option<u8>> {
+        if let Some(v) = self.0.q.borrow_mut().pop_front() {
+            std::task::Poll::Ready(Some(v))
+        } else if self.0.ended.get() {
+            std::task::Poll::Ready(None)
+        } else {
+            *self.0.waker.borrow_mut() = Some(cx.waker().clone());
+            std::task::Poll::Pending
+        }
+    }
+}
+
 /// Shared reference to a harness-owned eventfd usable as the `F` of `Generic<F>`.
 #[derive(Debug)]
 pub struct FdRef(pub Rc<OwnedFd>);
@@ -2320,6 +2398,12 @@ pub fn run_history(cfg: &Rc<Cfg>, verbose: bool) -> (Outcome, Option<Vec<String>
     };
     for &k in &initial {
         ctx.insert(k);
+        if k == KindSpec::Exec {
+            let j = ctx.m.len() - 1;
+            for _ in 0..cfg.exec_initial_pending {
+                ctx.apply(Op::SchedulePending(j));
+            }
+        }
     }
     ctx.after_step();
 
